@@ -1091,6 +1091,9 @@ def generate_expl():
     lines.append("/-- the functions by the names the LTL explainer sees -/")
     lines.append("def ltlFuncs : List (String × Method) :=\n  [%s]" % ", ".join("(%s, %s)" % (q(n), nm) for t, n, nm in names if t == "ltl"))
     lines.append("")
+    lines.append("/-- the functions by the names the methods defined in the STL explainer module see -/")
+    lines.append("def stlFuncs : List (String × Method) :=\n  [%s]" % ", ".join("(%s, %s)" % (q(n), nm) for t, n, nm in names if t == "stl"))
+    lines.append("")
     for path, tag, cname in ((EXPLAINER_LTL, "ltl", "LTLExplainer"), (EXPLAINER_STL, "stl", "STLExplainer")):
         tree = ast.parse(open(os.path.join(REPO, path)).read())
         cls = [n for n in tree.body if isinstance(n, ast.ClassDef) and n.name == cname][0]
@@ -1114,6 +1117,7 @@ def main():
     write_if_changed(OUT_OFF, generate_offline())
     write_if_changed(OUT_UNITS, generate_units())
     write_if_changed(OUT_CLOCK, generate_clock())
+    write_if_changed(OUT_EXPL, generate_expl())
     write_if_changed(OUT_HOR, generate_horizon())
     write_if_changed(OUT_PAST, generate_past())
     write_if_changed(OUT_ONCTOR, generate_onctor())
